@@ -263,7 +263,7 @@ def walk_emit(ctx, cls, layout, only_p1=False):
     if only_p1:
         return
     # ---- P3..P6
-    problems = {}
+    problems, lost = {}, {}
     gen_seen = set()
     total = 0
     kmax = ctx.bound(2, 3)
@@ -323,6 +323,10 @@ def walk_emit(ctx, cls, layout, only_p1=False):
                 wit = '; '.join('entry %d: last=%s event %s sender %s' % (i, full[atoms_of(i)[0]], '==' if full[atoms_of(i)[2]] else '!=',
                                                                          'None' if full[atoms_of(i)[3]] else ('== emitter' if full[atoms_of(i)[4]] else '!= emitter')) for i in range(k))
                 wit += '; single=%s' % single
+                if '?' in got and any(is_t(x) and x[1] in ('elem', 'comp') for e in code_calls if not (is_t(e[1]) and e[1][1] == 'cb') for x in subterms(e[1])):
+                    # the callee comes out of a sequence the walk did not follow element by element: nothing is concluded
+                    lost.setdefault('a called object is %s: an element of a sequence the walk does not follow' % show([e[1] for e in code_calls if not (is_t(e[1]) and e[1][1] == 'cb')][0])[:60], 1)
+                    break
                 if got != exp:
                     problems.setdefault('callbacks called: entries %s, expected entries %s  [%s]' % (got, exp, wit), 1)
                     break
@@ -344,7 +348,10 @@ def walk_emit(ctx, cls, layout, only_p1=False):
                 else:
                     if val != T('list', *results):
                         problems.setdefault('emit returns %s, expected the list of results in call order [%s]' % (show(val)[:80], wit), 1)
-    if gen_seen:
+    if lost and not gen_seen:
+        for msg in list(lost)[:2]:
+            ctx.undecided('C19.P3', fi, msg)
+    elif gen_seen:
         ctx.undecided('C19.P3', fi, 'emit dispatches through the generator %s: lazy evaluation interleaved with its consumer is not modelled by the walk' % ', '.join(sorted(gen_seen)))
     elif problems:
         for msg in list(problems)[:4]:
